@@ -208,6 +208,7 @@ class UnitResult:
         self.wall = 0.0
         self.models_used = set()
         self.samples = []
+        self.cross = dict(unsat=0, sat=0, unknown=0, error=0)
 
     @property
     def status(self):
@@ -251,6 +252,8 @@ def run_unit(u: Unit, repo: Repo, timeout_ms=10000, seed=0) -> UnitResult:
     t0 = time.time()
     tmo = u.timeout_ms or timeout_ms
     models_pkg.USED.clear()
+    from . import core as _core
+    _core.CROSSCHECK['seen'] = {}
 
     def make_ctx(trace):
         return PathCtx(trace, timeout_ms=tmo, seed=seed)
@@ -308,6 +311,8 @@ def run_unit(u: Unit, repo: Repo, timeout_ms=10000, seed=0) -> UnitResult:
             c.paths += 1
             c.seconds += r.seconds
             c.backends.add(r.backend)
+            if getattr(r, 'cross', None):
+                res.cross[r.cross] = res.cross.get(r.cross, 0) + 1
             if r.status == 'proved':
                 c.proved += 1
             elif r.status == 'refuted':
